@@ -41,6 +41,8 @@ type Case struct {
 	Cs    hx.BS      `json:"cs"`
 	Err   bool       `json:"err"`
 	Out   hx.BS      `json:"out"`
+	// fam q: a sequence of calls in one interpreter (from a rejected recorded trace)
+	Calls []Case `json:"calls"`
 	// fam o
 	N        c05.NumJ `json:"n"`
 	Of       hx.BS    `json:"of"`
@@ -166,6 +168,8 @@ func feature(c *Case) string {
 		return "sign-flag"
 	case vc == "x" && strings.Contains(fl, "#") && len(c.Cn.D) == 0:
 		return "alt-zero"
+	case vc == "x" && strings.Contains(fl, "#") && strings.Contains(fl, "0") && !strings.Contains(fl, "-") && c.Wk != "none" && prec < 0:
+		return "alt-zero-pad"
 	case vc == "g" && c.Pk == "none":
 		return "default-precision"
 	case vc == "s" && !c.Chars && isMultibyte(c.Cs.Bytes()) && (c.Wk != "none" || c.Pk != "none"):
@@ -271,6 +275,8 @@ func Replay(raw json.RawMessage) hx.Outcome {
 		return replayFmt(&c)
 	case "o":
 		return replayPrint(&c)
+	case "q":
+		return replaySeq(&c)
 	}
 	return hx.Outcome{Skipped: true, Note: "unknown family"}
 }
@@ -475,4 +481,49 @@ func WriteCGate(args []string) int {
 		return 2
 	}
 	return 0
+}
+
+// replaySeq re-runs a recorded sequence of sprintf calls in ONE interpreter
+// and compares the result of every call (the last one is the call TLC rejected).
+func replaySeq(c *Case) hx.Outcome {
+	var sb strings.Builder
+	sb.WriteString("BEGIN {\n")
+	for i := range c.Calls {
+		cl := &c.Calls[i]
+		sb.WriteString("  printf \"%s\\001\", sprintf(" + hx.AwkString(cl.Fmt.Bytes()))
+		for j := range cl.Args {
+			sb.WriteString(", " + argExpr(&cl.Args[j]))
+		}
+		sb.WriteString(")\n")
+	}
+	sb.WriteString("}\n")
+	prog := sb.String()
+	res := hx.RunAwk(prog, nil, &interp.Config{Chars: c.Chars}, nil)
+	if res.Panic != nil {
+		return hx.Fail("C09/format-cache/panic", fmt.Sprintf("panic: %v", res.Panic), nil, res.PanicStk, prog)
+	}
+	if res.ParseErr != nil {
+		return hx.Outcome{Skipped: true, Note: "program rejected"}
+	}
+	outs := bytes.Split(res.Stdout, []byte{1})
+	outs = outs[:len(outs)-1]
+	for i := range c.Calls {
+		cl := &c.Calls[i]
+		if cl.Err {
+			if i < len(outs) || res.Err == nil {
+				return hx.Fail("C09/format-cache/sequence-dependent", fmt.Sprintf("call %d (%q) should fail", i+1, cl.Fmt.Bytes()), "error", string(res.Stdout), prog)
+			}
+			return hx.OK(true)
+		}
+		if i >= len(outs) || !bytes.Equal(outs[i], cl.Out.Bytes()) {
+			got := "(no output)"
+			if i < len(outs) {
+				got = string(outs[i])
+			}
+			return hx.Fail("C09/format-cache/sequence-dependent",
+				fmt.Sprintf("call %d of a sequence in one interpreter, sprintf(%q, ...): result differs from the specification although the same call alone agrees", i+1, cl.Fmt.Bytes()),
+				string(cl.Out.Bytes()), got, prog)
+		}
+	}
+	return hx.OK(true)
 }
